@@ -21,7 +21,7 @@ func (f *verifFakePayloader) Payload(mtu uint16, payload []byte) [][]byte {
 	n := verifCase("nfrag", f.minFrags, verifBound("C06.maxfrags"))
 	var out [][]byte
 	for i := 0; i < n; i++ {
-		l := verifPick("fraglen", []int{1, 3})
+		l := verifPick("fraglen", []int{1, 0, 3}[:verifBound("C06.fraglens")]) // an empty fragment is a fragment too
 		if f.full {
 			l = int(mtu)
 		}
@@ -232,4 +232,22 @@ func VerifC06Train() {
 	seq1 := s.seq.sequenceNumber
 	verifAssert("C06.empty", len(s.p.Packetize(nil, 5)) == 0 && s.seq.sequenceNumber == seq1)
 	verifCover("C06.end")
+}
+
+// more padding packets than half the sequence space in one call
+func VerifC06PaddingBurst() {
+	// concrete start values: a symbolic one would fork at each of the 40000 numbers
+	seq := &sequencer{sequenceNumber: uint16(verifPick("seq0", []int{100, 60000})), rollOverCount: verifU64("roc0")}
+	p := &packetizer{PayloadType: verifU8("pt") & 0x7F, SSRC: verifU32("ssrc"), Sequencer: seq, Timestamp: verifU32("ts0"),
+		MTU: uint16(verifPick("mtu", []int{64, 268, 1200})), Payloader: &verifFakePayloader{minFrags: 1},
+		timegen: func() time.Time { return time.Unix(0, 0) }}
+	s0, ts0 := seq.sequenceNumber, p.Timestamp
+	burst := p.GeneratePadding(40000)
+	verifAssert("C06.burst.count", len(burst) == 40000)
+	if len(burst) == 40000 {
+		verifAssert("C06.burst.first", burst[0].SequenceNumber == s0+1 && burst[0].Padding && burst[0].PaddingSize >= 1)
+		verifAssert("C06.burst.last", burst[39999].SequenceNumber == s0+40000 && burst[39999].Timestamp == ts0 && burst[39999].SSRC == p.SSRC)
+	}
+	verifAssert("C06.burst.sequencer", seq.sequenceNumber == s0+40000)
+	verifCover("C06.padding-burst")
 }
